@@ -34,6 +34,19 @@ type accTrig struct {
 	token   string
 	// direct subscriptions (cid + " " + rid) that existed just before the trigger
 	direct map[string]bool
+	// direct subscriptions the client knew of (successful responses) just before the trigger
+	cdirect map[string]bool
+}
+
+// answers reports whether access answer a can serve as the re-check that the
+// trigger demands: requested after it with the token it set, or - for
+// triggers that do not change the token - at least answered after it (the
+// atomic service computes answers when they are delivered).
+func (t *accTrig) answers(a *accAns) bool {
+	if t.kind == "token" {
+		return a.reqTime > t.time && a.token == t.token
+	}
+	return a.reqTime > t.time || a.ansTime > t.time
 }
 
 type AccessMon struct {
@@ -46,6 +59,7 @@ type AccessMon struct {
 	lastTok map[string]string // last token delivered per cid
 	prevTok map[string]string // snapshot token before the current step
 	prevDir map[string]bool   // direct subscriptions before the current step
+	prevCD  map[string]bool   // client-side direct subscriptions before the current step
 	seenReq int
 	seenRsp []int
 	seenEv  []int
@@ -174,12 +188,12 @@ func (m *AccessMon) Step(w *World, action string) {
 			json.Unmarshal([]byte(r.Payload), &te)
 			tok := string(te.Token)
 			if m.hadTok[cid] {
-				m.trigs = append(m.trigs, &accTrig{kind: "token", cid: cid, time: r.Time, token: tok, direct: m.prevDir})
+				m.trigs = append(m.trigs, &accTrig{kind: "token", cid: cid, time: r.Time, token: tok, direct: m.prevDir, cdirect: m.prevCD})
 			}
 			m.hadTok[cid] = true
 			m.lastTok[cid] = tok
 		case strings.HasPrefix(r.Subject, "event.") && strings.HasSuffix(r.Subject, ".reaccess"):
-			m.trigs = append(m.trigs, &accTrig{kind: "reaccess", name: r.Subject[6 : len(r.Subject)-9], time: r.Time, direct: m.prevDir})
+			m.trigs = append(m.trigs, &accTrig{kind: "reaccess", name: r.Subject[6 : len(r.Subject)-9], time: r.Time, direct: m.prevDir, cdirect: m.prevCD})
 		case r.Subject == "system.reset":
 			var rs struct {
 				Access []string `json:"access"`
@@ -192,7 +206,7 @@ func (m *AccessMon) Step(w *World, action string) {
 				}
 			}
 			if len(pats) > 0 {
-				m.trigs = append(m.trigs, &accTrig{kind: "reset", pats: pats, time: r.Time, direct: m.prevDir})
+				m.trigs = append(m.trigs, &accTrig{kind: "reset", pats: pats, time: r.Time, direct: m.prevDir, cdirect: m.prevCD})
 			}
 		}
 	}
@@ -407,6 +421,15 @@ func (m *AccessMon) Step(w *World, action string) {
 
 	m.prevTok = curTok
 	m.prevDir = curDir
+	cd := map[string]bool{}
+	for _, c := range w.Conns {
+		for rid, n := range c.Client.Direct {
+			if n > 0 {
+				cd[c.CID+" "+rid] = true
+			}
+		}
+	}
+	m.prevCD = cd
 }
 
 func (a *accAns) decode(w *World, r *Req) {
@@ -483,7 +506,7 @@ func (m *AccessMon) End(w *World) {
 				}
 				ok := false
 				for _, a := range m.ans {
-					if a.cid == cs.CID && a.key == key && a.reqTime > t.time {
+					if a.cid == cs.CID && a.key == key && t.answers(a) {
 						ok = true
 					}
 				}
@@ -544,8 +567,8 @@ func (m *AccessMon) End(w *World) {
 				if ev.Event == "+hand" || ev.Event == "+drop" || ev.Event == "unsubscribe" || ev.At <= t.time {
 					continue
 				}
-				if !t.direct[c.CID+" "+ev.RID] {
-					continue
+				if !t.cdirect[c.CID+" "+ev.RID] || c.Client.EverRef[ev.RID] {
+					continue // not directly subscribed, or (also) held indirectly at some point
 				}
 				name, q := splitKey(strings.ReplaceAll(ev.RID, "{cid}", c.CID))
 				key := accKey(name, q)
@@ -560,7 +583,7 @@ func (m *AccessMon) End(w *World) {
 				// first verdict requested after the trigger
 				var v *accAns
 				for _, a := range m.ans {
-					if a.cid == c.CID && a.key == key && a.reqTime > t.time && a.ansTime != 0 {
+					if a.cid == c.CID && a.key == key && t.answers(a) && a.ansTime != 0 {
 						if v == nil || a.ansTime < v.ansTime {
 							v = a
 						}
